@@ -16,7 +16,8 @@ CLAIMED = {
 CLAIMED.update({
     'C01': dict(cat='proof', design='DESIGN.md §7 C01',
         text='Executable Gallina model of the whole matcher (Match.v, one function per CSSMatch method) run, extracted, against the '
-             'implementation on every entry point; theorems: document object / non-elements never match; the seven attribute-operator '
+             'implementation on every entry point; theorems: document object / non-elements never match; the answer does not depend on the '
+             'recursion fuel once it is produced (FuelFacts) nor on the memo (HistFacts); the seven attribute-operator '
              'regex templates are a Coq function (AttrPat.v) validated AST-for-AST against what the real parser compiles; an independent '
              'reference semantics on the source AST decides every selected set.',
         note='Trusted: Coq kernel, T1/T2 translators, bs4view/irdump, extraction, reference semantics (selspec.py). The Spec-equivalence '
@@ -27,8 +28,10 @@ CLAIMED.update({
         note='The theorems are about the model; the tie to css_match.match_nth is the correspondence run. The An+B micro-syntax -> integers step is executed (parser model), not proved.',
         technique='Coq proof by induction (loop invariants, lia/nia) on the model of the loop + differential run'),
     'C13': dict(cat='proof', design='DESIGN.md §7 C13',
-        text='Theorem: the language-range decision on subtag lists is exactly RFC 4647 3.3.2 (inductive relation), for all lists; the string '
-             'level (split, lower, RE_WILD_STRIP from the regenerated regex) and the language-determination walk are executed by the '
+        text='Theorems: the language-range decision on subtag lists is exactly RFC 4647 3.3.2 (inductive relation), for all lists; the '
+             'language attribute is the first `lang` (HTML namespace / namespace-unaware trees) resp. `xml:lang` attribute; the walk '
+             'returns the language of the nearest ancestor-or-self inside the own document, uniquely; the <meta> memo never changes an '
+             'answer. The string level (split, lower, RE_WILD_STRIP from the regenerated regex) and the <meta> scan are executed by the '
              'extracted model against the implementation and an independent RFC 4647 / language-of oracle.',
         note='str.lower modelled as ASCII; meta fallback not judged in XML / nested iframe documents.',
         technique='Coq proof of filter = RFC 4647 relation + extracted-model/implementation/oracle differential'),
@@ -59,7 +62,8 @@ CLAIMED.update({
     'C03': dict(cat='proof', design='DESIGN.md §7 C03',
         text='Theorems: the six module-level wrappers forward pattern, namespaces, flags and custom to compile() and call the same-named '
              'method (a finite statement about the wrapper bodies regenerated from soupsieve/__init__.py by T3); select() yields a '
-             'sub-sequence of the descendant walk, at most k items under limit k; the document object and non-elements never match. '
+             'sub-sequence of the descendant walk, at most k items under limit k; the document object and non-elements never match; '
+             'select / filter / closest are exactly the per-element match() answers in document order up to the limit (HistFacts). '
              '~25 relational facts between all entry points checked on the implementation, every entry point through the extracted model.',
         note='select = filter-by-match pointwise is the C04 theorem (HistFacts); the relational facts are checked per case on the implementation.',
         technique='Coq proof over source-translated API table + matcher-model lemmas + relational differential'),
